@@ -140,22 +140,34 @@ func SimplifyBounds(ctx *OpContext, k Kind, x, y *BoundValue) Value {
 			// given that apd.Decimal contains pointers which are carried with shallow copies.
 			if a.X.Exponent < 0 {
 				lo = apd.Decimal{}
+				var cond apd.Condition
+				var err error
 				if x.Op == GreaterEqualOp {
 					// >=3.4  ==>  >=4
-					internal.BaseContext.Ceil(&lo, &a.X)
+					cond, err = internal.BaseContext.Ceil(&lo, &a.X)
 				} else {
 					// >3.4   ==>  >3
-					internal.BaseContext.Floor(&lo, &a.X)
+					cond, err = internal.BaseContext.Floor(&lo, &a.X)
+				}
+				if cond.Inexact() || err != nil {
+					// The integer part does not fit the precision of the
+					// context: do not compare rounded bounds.
+					break
 				}
 			}
 			if b.X.Exponent < 0 {
 				hi = apd.Decimal{}
+				var cond apd.Condition
+				var err error
 				if y.Op == LessEqualOp {
 					// <=2.3  ==>  <= 2
-					internal.BaseContext.Floor(&hi, &b.X)
+					cond, err = internal.BaseContext.Floor(&hi, &b.X)
 				} else {
 					// <2.3   ==>  < 3
-					internal.BaseContext.Ceil(&hi, &b.X)
+					cond, err = internal.BaseContext.Ceil(&hi, &b.X)
+				}
+				if cond.Inexact() || err != nil {
+					break
 				}
 			}
 		}
